@@ -29,7 +29,7 @@ DUMP = os.path.join(CACHE, 'dump')
 LEAN = os.path.join(VERIF, 'lean')
 GEN = os.path.join(LEAN, 'Precis', 'Gen')
 HARNESS_DIR = os.path.join(VERIF, 'harness')
-HARNESS = os.path.join(TARGET, 'debug', 'harness')
+HARNESS = os.environ.get('VERIF_HARNESS_BIN') or os.path.join(TARGET, 'debug', 'harness')   # override: coverage-instrumented build (tools/coverage.sh)
 DRIVER = os.path.join(LEAN, '.lake', 'build', 'bin', 'driver')
 EVID = os.path.join(VERIF, 'evidence')
 REPLAY = os.path.join(EVID, 'replay')
